@@ -10,10 +10,12 @@ package main
 import (
 	"encoding/json"
 	"fmt"
+	"io"
 	"os"
 	"sort"
 
 	"go.uber.org/zap"
+	"go.uber.org/zap/zapcore"
 
 	"github.com/metal-toolbox/audito-maldito/processors/auditd"
 	"github.com/metal-toolbox/audito-maldito/processors/sshd"
@@ -89,7 +91,7 @@ func main() {
 var childEntries = map[string]func(args []string){}
 
 func childMain(args []string) {
-	nop := zap.NewNop().Sugar()
+	nop := nopLogger()
 	auditd.SetLogger(nop)
 	sshd.SetLogger(nop)
 	if len(args) == 0 {
@@ -103,4 +105,20 @@ func childMain(args []string) {
 	fn(args[1:])
 }
 
-func nopLogger() *zap.SugaredLogger { return zap.NewNop().Sugar() }
+// debugLog is true in processes that run the code under test with a
+// debug-level logger (writing to nowhere): log level is a configuration
+// dimension, and code that only runs at debug level must not change behaviour.
+var debugLog = os.Getenv("VERIF_DEBUGLOG") == "1"
+
+func debugLogger() *zap.SugaredLogger {
+	enc := zapcore.NewJSONEncoder(zap.NewProductionEncoderConfig())
+	return zap.New(zapcore.NewCore(enc, zapcore.AddSync(io.Discard), zapcore.DebugLevel)).Sugar()
+}
+
+// nopLogger is the logger handed to the code under test by this process.
+func nopLogger() *zap.SugaredLogger {
+	if debugLog {
+		return debugLogger()
+	}
+	return zap.NewNop().Sugar()
+}
